@@ -160,6 +160,9 @@ def run(ctx):
                     ctx.violation("monitor", "likelihood table differs between JIT-disabled and Numba-absent mode", {"case": desc})
         # labelling kernel across modes (bit for bit)
         cases = c01.gen_cases(rng, ctx.budget(200, 1000), 11, 4)
+        # ... and with hundreds of clusters (ids beyond one byte), where a narrower successor table would behave differently
+        # compiled (silent truncation) and interpreted (error)
+        cases += c01.gen_many_clusters(rng, ctx.budget(10, 40))
         hk = {m: core.start_worker(ctx, "vcheck.props.c01:kernel_batch", cases, mode=m, tag="kern") for m in ("interp", "jit", "nonumba")}
         c01.kernel_batch(cases[:5])
         rk = {m: core.wait_worker(h) for m, h in hk.items()}
